@@ -413,6 +413,21 @@ fn case_strategy() -> impl Strategy<Value = Case> {
         .prop_map(|(m, track, n, rounds, owners)| Case { m, track, n, rounds, owners })
 }
 
+const SESSION_ORACLES: crate::sim::Oracles = crate::sim::Oracles {
+    converge: true,
+    values: true,
+    structure: false,
+    wire: false,
+    isvis: false,
+    silence: false,
+    ev_tick: false,
+    ev_once: false,
+    unauth: false,
+    adoption: false,
+    session: false,
+    mutate_ticks: false,
+};
+
 pub struct C10;
 
 impl Prop for C10 {
@@ -420,12 +435,32 @@ impl Prop for C10 {
         "C10"
     }
     fn units(&self, tier: Tier) -> Vec<Unit> {
-        vec![Unit::new("split", if tier == Tier::Quick { 40_000 } else { 800_000 })]
+        vec![
+            Unit::new("split", if tier == Tier::Quick { 40_000 } else { 800_000 }),
+            // the all-or-nothing clause over whole sessions: the engine's `split` profile (one tick's mutations in several
+            // messages that are delivered / lost one by one, acknowledgement timeouts shorter than the round trip, several
+            // ticks in flight) with the per-entity "all components at the same tick" oracle of C02 after every client frame
+            // and convergence at the end (seed C10r9)
+            Unit::new("split_sessions", if tier == Tier::Quick { 40_000 } else { 1_000_000 }).with(serde_json::json!({"thorough": tier == Tier::Thorough})),
+        ]
     }
     fn run_unit(&self, unit: &Unit, cases: u32, seed: u64, stats: &mut Stats) -> Option<Failure> {
+        if unit.name == "split_sessions" {
+            use crate::sim::generate::{Profile, case_strategy as engine_cases, run_case};
+            let thorough = unit.param["thorough"].as_bool().unwrap_or(false);
+            return run_proptest(&unit.name, engine_cases(Profile::Split, thorough), cases, seed, 3000, stats, |c: &crate::sim::Case| {
+                run_case("C10", c, SESSION_ORACLES, |s| s.flags.contains("mut_dropped") || s.flags.contains("mut_reordered"))
+            });
+        }
         run_proptest(&unit.name, case_strategy(), cases, seed, 2000, stats, |c| guarded("C10", || run(c)))
     }
-    fn replay(&self, _unit: &str, case: &Value) -> Outcome {
+    fn replay(&self, unit: &str, case: &Value) -> Outcome {
+        if unit == "split_sessions" {
+            return match serde_json::from_value::<crate::sim::Case>(case.clone()) {
+                Ok(c) => crate::sim::generate::run_case("C10", &c, SESSION_ORACLES, |_| true),
+                Err(e) => Outcome::failed(Fail::new("infra.replay", e.to_string())),
+            };
+        }
         match serde_json::from_value::<Case>(case.clone()) {
             Ok(c) => run(&c),
             Err(e) => Outcome::failed(Fail::new("infra.replay", e.to_string())),
@@ -439,7 +474,10 @@ impl Prop for C10 {
          H = L_a + L_b - L_ab. oracle: payload conservation over the probe's messages; every unit fits => no message > m; everything fits (+9 bytes slack with tracking) \
          => exactly one message; never more messages than units; delivering the probe's messages one at a time in a generated order (rest possibly lost): C02 per entity \
          after every frame and, for entities the harness's own union-find over ChildOf puts into one group and that changed in the tick, confirmed-at-tick is all or none. \
-         non-trivial = the tick produced >= 2 messages for the probe, or a group of >= 2 entities changed together after the graph was edited"
+         non-trivial = the tick produced >= 2 messages for the probe, or a group of >= 2 entities changed together after the graph was edited. \
+         Unit split_sessions: engine histories of the `split` profile (small message limits, one tick's mutations in several messages delivered / lost individually, \
+         acknowledgement timeouts of 30 ms, several ticks in flight, 1-2 clients); oracle: after every client frame every entity's components all equal the server's \
+         at the entity's confirmed tick (updated completely or not at all), and convergence at the end; non-trivial = a mutate message was dropped or reordered"
             .into()
     }
     fn assumptions(&self) -> Vec<String> {
